@@ -346,13 +346,12 @@ def shards(tier):
     for ra in ((0, 1, 2) if thorough else (1, 2)):     # retry_attempts=0 evicts at once: covered by the 3-event shards
         for ign in (False, True):
             out.append(dict(fn="h_failover", timeout=T, weight=3, shard=dict(ns=2, ra=ra, ignore_exc=ign, kind="refused",
-                                                                             depth=6 if thorough else 5, first=3, dtmax=2,
-                                                                             dmax=5 if thorough else 3,
+                                                                             depth=5, first=3, dtmax=2, dmax=3,
                                                                              alphabet=[0, 2] if not thorough else [0, 1, 2])))
     # eviction, healing, then traffic: fail s1, get k1, heal s1, then {get k0, get k1, set_many}
     for ra in ((0, 1) if thorough else (1,)):
         out.append(dict(fn="h_failover", timeout=T, weight=3, shard=dict(ns=2, ra=ra, ignore_exc=False, kind="refused",
-                                                                         depth=5, first=5, dtmax=2, dmax=5 if thorough else 3, alphabet=[1, 2, 6])))
+                                                                         depth=5, first=5, dtmax=2, dmax=3, alphabet=[1, 2, 6])))
     # a long dead_timeout against a short retry_timeout: the retry budget (retry_attempts+2 contacts per dead_timeout
     # window) only binds when dead_timeout spans several retries
     for ra in (1, 2):
@@ -393,7 +392,7 @@ def shards(tier):
     if thorough:
         for ra in (1, 2):
             for first in (0, 1, 2, 3, 4, 6, 8):
-                out.append(dict(fn="h_failover", timeout=T, shard=dict(ns=3, ra=ra, ignore_exc=False, kind="refused", depth=4,
+                out.append(dict(fn="h_failover", timeout=T, shard=dict(ns=3, ra=ra, ignore_exc=False, kind="refused", depth=3,
                                                                        first=first, dtmax=3)))
     return out
 
@@ -407,8 +406,8 @@ BOUNDS = {
              "(server_key, key) pairs on 2 servers, and on 3 servers for `server 0 fails, then gets routed by the keys of "
              "servers 0 and 1` (4-5 events); every get must query placement with its routing key only and contact the "
              "server placement named",
-    "thorough": "all retry_attempts x ignore_exc x error kinds at 3 events, 4 events over the full alphabet for ConnectionRefusedError without ignore_exc, 6 over the reduced ones; 3 "
-                "servers with 4 events; pair histories one event longer (5 events over the full alphabet did not exhaust in "
+    "thorough": "all retry_attempts x ignore_exc x error kinds at 3 events, 4 events over the full alphabet for ConnectionRefusedError without ignore_exc, 5 over the reduced ones (with `get k1` added); 3 "
+                "servers with 3 events over the full alphabet; pair histories one event longer (5 events over the full alphabet did not exhaust in "
                 "2400 CPU-seconds per shard and was dropped)",
 }
 OUTSIDE = ("histories longer than 5 events; more than 3 servers; timeouts larger than 3 units (all comparisons in the code are "
